@@ -8,3 +8,14 @@ chk("C15", "Seeded adversarial schedules over real raft.RawNode instances (tick,
     "are evaluated after every event. Quick 400 schedules x 3000 events, thorough 500k x 8000. Not exhaustive: held on the schedules explored.",
     "Network never forges or corrupts messages; the simulated disk honours persist-before-send; the library's election jitter cannot be seeded (replay of tick-driven schedules is best effort, never a source of alarms).",
     "runtime invariant monitors over a seeded fault-injecting RawNode simulator", cat="fault_enumeration")
+chk("C02", "The real resp.ParseStream is fed seeded request streams through a reader that returns exactly the planned chunk per Read (all partitions for tiny streams; every single cut, cut pairs around structural bytes, "
+    "1 byte per read, 4095/4096/4097 alignment and random partitions otherwise) and what it delivers is compared with an independent strict recogniser: exact argv for well-formed pipelines, and for damaged streams "
+    "exactly the well-formed prefix, then an error/end, never a command from bytes at or after the violation (canary commands). All streams of length <= 6 over {* $ CR LF 0 1 - a} are run for crash-freedom. "
+    "The same stream kinds go to the real binary over TCP with paused chunked writes: echo/round-trip replies, error-or-close after a violation, canary keys, a bystander connection.",
+    "Top-level values that are well-formed RESP but not arrays of bulk strings, inline text and non-canonical length spellings are open corners (crash-freedom/termination only). Parser panics kill the batch process: the journal pins the stream and the batch resumes after it.",
+    "runtime differential monitoring of the parser against an independent recogniser under enumerated fragmentations; process-level liveness over TCP")
+chk("C03", "In-process: programs mixing every command family with frame-breaking payloads and key names (CRLF, '+OK', '$-1', ':1', empty, NUL) run through the real executors; the bytes each executor hands to the connection must be exactly one "
+    "well-formed RESP value that decodes to the structural reply, and payload-carrying elements must be bulk strings (strict comparison with the reference model). TCP: pipelines 'cmd_1, PING m_1, cmd_2, PING m_2, ...' written in one or several chunks to the real binary; "
+    "the reply stream must decode as v_1, bulk(m_1), v_2, ...: a missing, doubled or unframed reply shifts the markers at a known index.",
+    "Pub/Sub pushes are excluded (SUBSCRIBE only on dedicated connections, C19); blocking pops are exercised in-process only; error texts are free.",
+    "runtime monitoring of reply framing with an independent strict RESP decoder and sync markers")
